@@ -84,7 +84,21 @@ Definition spec_step (f : flavour) (s : sstate) (o : op) : sstate :=
   | ODestroy v => sset s v SDead
   | OResize v n => match f with FStr => if is_dead (sget s v) then s else sset s v (smod (sget s v) (STrunc n)) | _ => s end
   | OReserve v n => match f with FStr => if is_dead (sget s v) then s else sset s v (smod (sget s v) (SReserve n)) | _ => s end
+  | OStrMod v md => match f with FStr => if is_dead (sget s v) then s else sset s v (smod (sget s v) md) | _ => s end
+  | OStrCatV front d sv =>        (* the text of sv behind (in front of) the text of d; sv keeps its own *)
+      match f with
+      | FStr => if negb (is_dead (sget s d)) && negb (is_dead (sget s sv))
+                then sset s d (smod (sget s d) (SCat front (match sget s sv with SVal _ n => n | _ => 0 end))) else s
+      | _ => s
+      end
+  | ORetype v c =>
+      match f with
+      | FVar | FXml => if is_dead (sget s v) then s else sset s v (SVal 0 c)
+      | _ => s
+      end
   end.
+
+Definition speek (s : sstate) (v : nat) : Z := match sget s v with SVal _ n => n | _ => 0 end.
 
 Definition spec_run (f : flavour) (ops : list op) : sstate := fold_left (spec_step f) ops sinit.
 
